@@ -55,10 +55,15 @@ def correspond(ctx, lines, oracle=None, minimise=None, label="correspondence", k
         else:
             a2, b2, pf2 = a, b, prop_fail
         if pf2 is not None:
-            if not ctx.violation("property-fails", {"line": line}, f"{pf2}; impl={a2!r} model={b2!r}"):
-                # listed after minimisation (and the model disagrees with the code: still a broken tie)
-                if a2 == b2:
-                    unlisted -= 1
+            v = {"kind": "property-fails", "input": {"line": line}, "detail": f"{pf2}; impl={a2!r} model={b2!r}"}
+            if ctx.match_finding(v) is not None and a2 != b2:
+                # same class as a listed finding, but the code no longer behaves like the model of today's
+                # (defective) code on this input: a different failure, reported with its input
+                ctx.violation("property-fails-differently", {"line": line},
+                              f"{pf2}; and the implementation deviates from the model of the listed defect: "
+                              f"impl={a2!r} model={b2!r}")
+            elif not ctx.violation(v["kind"], v["input"], v["detail"]):
+                unlisted -= 1
         else:
             ctx.violation("model-impl-disagree", {"line": line, "correspondence": label},
                           f"impl={a2!r} model={b2!r}; the property oracle found no failure on this input",
